@@ -63,6 +63,7 @@ Section RnodeInd.
   Hypothesis HD : forall uid key sh, P (RDone uid key sh).
   Hypothesis HS : forall uid key inf stages, Forall (Forall P) stages -> P (RSub uid key inf stages).
   Hypothesis HT : forall uid key inf calls, P (RTools uid key inf calls).
+  Hypothesis HStop : forall armed, P (RStop armed).
 
   Fixpoint rnode_ind' (n : rnode) : P n :=
     match n with
@@ -84,6 +85,7 @@ Section RnodeInd.
                      (fs l')
                end) stages)
     | RTools uid key inf calls => HT uid key inf calls
+    | RStop armed => HStop armed
     end.
 End RnodeInd.
 
@@ -102,7 +104,7 @@ Proof. induction l as [|a l IH]; simpl; auto. now rewrite IH. Qed.
 
 Lemma proj_uids n : subseq (flat_map uids (proj n)) (ruids n).
 Proof.
-  induction n as [uid key inf natives fails intr|uid key|uid key sh|uid key inf stages IH|uid key inf calls]
+  induction n as [uid key inf natives fails intr|uid key|uid key sh|uid key inf stages IH|uid key inf calls|armed]
     using rnode_ind'; simpl.
   - apply subseq_refl.
   - apply subseq_refl.
@@ -113,6 +115,7 @@ Proof.
     rewrite Forall_forall in IH. specialize (IH st Hst). rewrite Forall_forall in IH. auto.
   - rewrite app_nil_r. apply ss_keep. rewrite map_map.
     erewrite map_ext; [apply subseq_refl|]. intros c. apply proj_call_uid.
+  - destruct armed; apply ss_nil.
 Qed.
 
 Lemma proj_stages_uids plan : subseq (stages_uids (proj_stages plan)) (rstages_uids plan).
@@ -127,13 +130,11 @@ Proof. apply NoDup_subseq. apply ss_keep. apply proj_stages_uids. Qed.
 
 (* ---------------------------------------------------------------- unit names of the resumed plan *)
 
-Lemma ruids_head n : exists tl, ruids n = rnode_uid n :: tl.
-Proof. destruct n; simpl; eauto. Qed.
-
 Lemma done_of_uids n : subseq (ruids (done_of n)) (ruids n).
-Proof.
-  destruct (ruids_head n) as (tl & E). rewrite E. simpl. apply ss_keep. apply subseq_nil_l.
-Qed.
+Proof. destruct n; simpl; try (apply ss_keep; apply subseq_nil_l). apply ss_nil. Qed.
+
+Lemma done_of_intr n : node_intr (done_of n) <= node_intr n.
+Proof. destruct n; simpl; lia. Qed.
 
 Lemma resume_walk_uids os :
   Forall (Forall (fun x : rnode * outcome * rnode => subseq (ruids (snd x)) (ruids (fst (fst x))))) os ->
@@ -157,7 +158,7 @@ Qed.
 
 Lemma resume_node_uids n : forall opts, subseq (ruids (resume_node opts n)) (ruids n).
 Proof.
-  induction n as [uid key inf natives fails intr|uid key|uid key sh|uid key inf stages IH|uid key inf calls]
+  induction n as [uid key inf natives fails intr|uid key|uid key sh|uid key inf stages IH|uid key inf calls|armed]
     using rnode_ind'; intros opts; simpl; try apply subseq_refl.
   - apply ss_keep.
     set (F := fun m => node_outcome (sub_opts key opts) m).
@@ -247,12 +248,12 @@ Proof.
     assert (list_sum (map node_intr (map (fun x => if is_intr (snd (fst x)) then snd x else done_of (fst (fst x))) st))
             < list_sum (map node_intr (map (fun x => fst (fst x)) st))).
     { rewrite !map_map. apply list_sum_map_lt.
-      - intros y Hy. destruct (is_intr (snd (fst y))); [apply (Hle st); auto|simpl; lia].
+      - intros y Hy. destruct (is_intr (snd (fst y))); [apply (Hle st); auto|apply done_of_intr].
       - exists x. split; auto. rewrite Ix. apply (Hlt st); auto. }
     lia.
   - assert (list_sum (map node_intr (map (fun x => done_of (fst (fst x))) st))
             <= list_sum (map node_intr (map (fun x => fst (fst x)) st))).
-    { rewrite !map_map. apply list_sum_map_le. intros y Hy. simpl. lia. }
+    { rewrite !map_map. apply list_sum_map_le. intros y Hy. apply done_of_intr. }
     assert (list_sum (map (fun st0 => list_sum (map node_intr st0)) (resume_walk os)) <
             list_sum (map (fun st0 => list_sum (map node_intr st0)) (map (map (fun x => fst (fst x))) os))).
     { apply IH; auto.
@@ -275,7 +276,7 @@ Qed.
 
 Lemma resume_node_le n : forall opts, node_intr (resume_node opts n) <= node_intr n.
 Proof.
-  induction n as [uid key inf natives fails intr|uid key|uid key sh|uid key inf stages IH|uid key inf calls]
+  induction n as [uid key inf natives fails intr|uid key|uid key sh|uid key inf stages IH|uid key inf calls|armed]
     using rnode_ind'; intros opts; simpl; try lia.
   - (* sub: every node of the walk is replaced by something not larger *)
     set (F := fun m => node_outcome (sub_opts key opts) m).
@@ -290,12 +291,12 @@ Proof.
                                             (map (fun m => (m, F m, G m)) st)))
                 <= list_sum (map node_intr st)).
         { rewrite !map_map. apply list_sum_map_le. intros m Hm. simpl.
-          rewrite Forall_forall in Hst. destruct (is_intr (F m)); [apply Hst; auto|simpl; lia]. }
+          rewrite Forall_forall in Hst. destruct (is_intr (F m)); [apply Hst; auto|apply done_of_intr]. }
         lia.
       - simpl.
         assert (list_sum (map node_intr (map (fun x : rnode * outcome * rnode => done_of (fst (fst x))) (map (fun m => (m, F m, G m)) st)))
                 <= list_sum (map node_intr st)).
-        { rewrite !map_map. apply list_sum_map_le. intros m Hm. simpl. lia. }
+        { rewrite !map_map. apply list_sum_map_le. intros m Hm. apply done_of_intr. }
         lia. }
     apply Hgen. exact IH.
   - rewrite map_map. apply list_sum_map_le. intros c _.
@@ -304,7 +305,7 @@ Qed.
 
 Lemma resume_node_lt n : forall opts, node_outcome opts n = OutIntr -> node_intr (resume_node opts n) < node_intr n.
 Proof.
-  induction n as [uid key inf natives fails intr|uid key|uid key sh|uid key inf stages IH|uid key inf calls]
+  induction n as [uid key inf natives fails intr|uid key|uid key sh|uid key inf stages IH|uid key inf calls|armed]
     using rnode_ind'; intros opts; simpl; try discriminate.
   - destruct intr; [destruct fails; discriminate|]. simpl. lia.
   - destruct (negb _); [discriminate|]. intros Ho.
@@ -324,6 +325,7 @@ Proof.
     rewrite map_map. apply list_sum_map_lt.
     + intros c' _. destruct c' as [[[[cu cinf] natives] fails] intr]. simpl. lia.
     + exists c. split; auto. destruct c as [[[[cu cinf] natives] fails] intr]. simpl in *. lia.
+  - destruct armed; [discriminate|]. simpl. lia.
 Qed.
 
 Lemma resume_stages_decreases opts plan :
